@@ -118,6 +118,7 @@ func TestC11Parallel(t *testing.T) {
 		defer c.Close()
 		c.CreateColumn("tag", column.ForUint64())
 		c.CreateColumn("junk", column.ForInt())
+		c.CreateColumn("e", column.ForEnum())
 		// pre-existing rows that hold junk and get deleted by worker 0 first (so offsets with stale data exist)
 		var pre []uint32
 		c.Query(func(txn *column.Txn) error {
@@ -163,7 +164,11 @@ func TestC11Parallel(t *testing.T) {
 							for k := 0; k < op.N; k++ {
 								seq++
 								tag := uint64(w+1)<<32 | seq
-								off, err := txn.Insert(func(r column.Row) error { r.SetUint64("tag", tag); return nil })
+								off, err := txn.Insert(func(r column.Row) error {
+									r.SetUint64("tag", tag)
+									r.SetEnum("e", fmt.Sprintf("e%x", tag)) // a fresh dictionary entry per insert
+									return nil
+								})
 								if err != nil {
 									return err
 								}
@@ -198,12 +203,17 @@ func TestC11Parallel(t *testing.T) {
 		found := map[uint64][]uint32{}
 		junk := 0
 		rows := 0
+		badEnum := ""
 		c.Query(func(txn *column.Txn) error {
 			tag := txn.Uint64("tag")
 			jk := txn.Int("junk")
+			en := txn.Enum("e")
 			return txn.Range(func(idx uint32) {
 				rows++
 				if v, ok := tag.Get(); ok {
+					if e, has := en.Get(); v>>63 == 0 && (!has || e != fmt.Sprintf("e%x", v)) && badEnum == "" {
+						badEnum = fmt.Sprintf("row %d (tag %#x) reads enum %q,%v, its insert stored %q", idx, v, e, has, fmt.Sprintf("e%x", v))
+					}
 					found[v] = append(found[v], idx)
 					if _, has := jk.Get(); has && v>>63 == 0 {
 						junk++
@@ -233,6 +243,9 @@ func TestC11Parallel(t *testing.T) {
 					reused++
 				}
 			}
+		}
+		if badEnum != "" {
+			t.Fatalf("C11 violated (free-parallel run): %s (a concurrent insert's value replaced it or the dictionary lost it); workers=%d capacity=%d prefill=%d", badEnum, workers, capacity, prefill)
 		}
 		if junk != 0 {
 			t.Fatalf("C11 violated (free-parallel run): %d fresh rows expose the value a previous occupant stored in a column they never wrote", junk)
